@@ -542,11 +542,34 @@ class TLSRecordLayer(object):
                     self._shutdown(True)
                 else:
                     while not alert:
-                        for result in self._getMsg((ContentType.alert, \
-                                                  ContentType.application_data)):
+                        if self.version > (3, 3):
+                            # session tickets and key updates may still be
+                            # in flight, they are not an error
+                            expected = (ContentType.alert,
+                                        ContentType.application_data,
+                                        ContentType.handshake)
+                            if self._client:
+                                secondary = (HandshakeType.new_session_ticket,
+                                             HandshakeType.key_update)
+                            else:
+                                secondary = (HandshakeType.key_update,)
+                        else:
+                            expected = (ContentType.alert,
+                                        ContentType.application_data)
+                            secondary = None
+                        for result in self._getMsg(expected, secondary):
                             if result in (0,1):
                                 yield result
-                        if result.contentType == ContentType.alert:
+                        if isinstance(result, KeyUpdate):
+                            # keep reading with the new keys; we have sent
+                            # close_notify already so we don't reply
+                            self.session.cl_app_secret, \
+                                self.session.sr_app_secret = \
+                                self._recordLayer.calcTLS1_3KeyUpdate_sender(
+                                    self.session.cipherSuite,
+                                    self.session.cl_app_secret,
+                                    self.session.sr_app_secret)
+                        elif result.contentType == ContentType.alert:
                             alert = result
                     if alert.description == AlertDescription.close_notify:
                         self._shutdown(True)
